@@ -111,8 +111,25 @@ impl PB {
 }
 
 pub fn universe(variant: PoolVariant) -> (Vec<CpInfo>, Ix, u16) {
+	universe_ordered(variant, false, 0)
+}
+
+/// the universe pool with the attribute names rotated left by `rotate` and, if `names_first`, placed before
+/// everything else (then the first of them is pool entry #1; otherwise the last of them is the last entry
+/// of the base variant)
+pub fn universe_ordered(variant: PoolVariant, names_first: bool, rotate: usize) -> (Vec<CpInfo>, Ix, u16) {
 	let mut p = PB { v: Vec::new(), next: 1 };
 	let mut ix = Ix::default();
+	let add_names = |p: &mut PB, ix: &mut Ix| {
+		for k in 0..ATTRIBUTE_NAMES.len() {
+			let n = ATTRIBUTE_NAMES[(k + rotate) % ATTRIBUTE_NAMES.len()];
+			let i = p.utf8(n);
+			ix.names.push((n, i));
+		}
+	};
+	if names_first {
+		add_names(&mut p, &mut ix);
+	}
 	if variant == PoolVariant::TwoSlotFirst {
 		ix.long = p.add(CpInfo::Long { high_bytes: 0x0102_0304, low_bytes: 0x0506_0708 });
 		ix.double = p.add(CpInfo::Double { high_bytes: 0x4004_0000, low_bytes: 0 });
@@ -158,9 +175,8 @@ pub fn universe(variant: PoolVariant) -> (Vec<CpInfo>, Ix, u16) {
 	ix.package_a = p.add(CpInfo::Package { name_index: u });
 	let u = p.utf8("p/o");
 	ix.package_b = p.add(CpInfo::Package { name_index: u });
-	for n in ATTRIBUTE_NAMES {
-		let i = p.utf8(n);
-		ix.names.push((n, i));
+	if !names_first {
+		add_names(&mut p, &mut ix);
 	}
 	if variant == PoolVariant::TwoSlotLast {
 		ix.long = p.add(CpInfo::Long { high_bytes: 0x0102_0304, low_bytes: 0x0506_0708 });
@@ -175,6 +191,13 @@ pub struct Case {
 	pub focus: &'static str,
 	pub pool: PoolVariant,
 	pub value: ClassFile,
+	/// the case is driven through the large reader / writer alphabets and the in-place edit chains
+	/// (false for the bulk of the stack map frame pairs, which get the small alphabets)
+	pub deep: bool,
+	/// the generator does not know whether the strict parser accepts the JVMS encoding of this value
+	/// (a table repeated up to a boundary size, an attribute in a foreign place); if it does not, the
+	/// case is counted and skipped instead of being a machinery error
+	pub optional: bool,
 }
 
 /// all lists with 0, 1 and 2 elements over `alphabet`
@@ -197,20 +220,60 @@ pub const LONG_CODE_NOPS: usize = 700;
 struct Gen {
 	pool: Vec<CpInfo>,
 	ix: Ix,
+	/// the next free JVMS pool index
+	next: u16,
 	variant: PoolVariant,
 	out: Vec<Case>,
 	counter: std::collections::BTreeMap<&'static str, usize>,
 }
+
+/// where an attribute is put
+#[derive(Clone, Copy, Debug, PartialEq, Eq)]
+pub enum Level {
+	Class,
+	Field,
+	Method,
+	Code,
+	Record,
+	/// the attributes of a module-info class
+	ModuleClass,
+}
+
+pub const LEVELS: [Level; 6] = [Level::Class, Level::Field, Level::Method, Level::Code, Level::Record, Level::ModuleClass];
 
 impl Gen {
 	fn two_slot(&self) -> bool {
 		self.variant != PoolVariant::Base
 	}
 	fn push(&mut self, focus: &'static str, value: ClassFile) {
+		self.push_as(focus, value, true, false);
+	}
+	fn push_optional(&mut self, focus: &'static str, value: ClassFile) {
+		self.push_as(focus, value, true, true);
+	}
+	fn push_as(&mut self, focus: &'static str, value: ClassFile, deep: bool, optional: bool) {
 		let n = self.counter.entry(focus).or_insert(0);
 		let label = format!("raw/{}/{}/{}", self.variant.name(), focus, *n);
 		*n += 1;
-		self.out.push(Case { label, focus, pool: self.variant, value });
+		self.out.push(Case { label, focus, pool: self.variant, value, deep, optional });
+	}
+	/// a generator over another pool (same variant), for families that need their own pool layout
+	fn with_pool(&self, (pool, ix, next): (Vec<CpInfo>, Ix, u16)) -> Gen {
+		Gen { pool, ix, next, variant: self.variant, out: Vec::new(), counter: Default::default() }
+	}
+	fn place(&self, level: Level, a: Vec<AttributeInfo>) -> ClassFile {
+		match level {
+			Level::Class => self.in_class(a),
+			Level::Field => self.in_field(a),
+			Level::Method => self.in_method(a),
+			Level::Code => self.in_code(Self::short_code(), a),
+			Level::Record => self.in_record(a),
+			Level::ModuleClass => {
+				let mut c = self.module_host();
+				c.attributes = a;
+				c
+			},
+		}
 	}
 	fn host(&self) -> ClassFile {
 		ClassFile { minor_version: 0, major_version: 61, constant_pool: self.pool.clone(), access_flags: 0x0021, this_class: self.ix.this_class, super_class: self.ix.super_class, interfaces: vec![], fields: vec![], methods: vec![], attributes: vec![] }
@@ -326,6 +389,10 @@ impl Gen {
 		for d in 0..=63u8 {
 			full.push(F::SameFrame { offset_delta: d });
 		}
+		// every frame_type of same_locals_1_stack_item_frame (64..=127)
+		for d in 1..=62u8 {
+			full.push(F::SameLocals1StackItemFrame { offset_delta: d, stack: vt[(d % 10) as usize].clone() });
+		}
 		for locals in lists012(&vt3) {
 			for stack in lists012(&vt3) {
 				full.push(F::FullFrame { offset_delta: 0, locals: locals.clone(), stack });
@@ -419,6 +486,10 @@ impl Gen {
 		self.record();
 		self.other();
 		self.attribute_pairs();
+		self.attribute_placement();
+		self.attribute_pairs_all_kinds();
+		self.name_dispatch();
+		self.table_sizes();
 	}
 
 	fn structure(&mut self) {
@@ -649,24 +720,45 @@ impl Gen {
 		let ix = self.ix.clone();
 		let (small, full) = self.frames();
 		let name = ix.name("StackMapTable");
-		let mut tables: Vec<Vec<StackMapFrame>> = vec![vec![]];
+		// (table, deep)
+		let mut tables: Vec<(Vec<StackMapFrame>, bool)> = vec![(vec![], true)];
 		for f in &full {
-			tables.push(vec![f.clone()]);
+			tables.push((vec![f.clone()], true));
 		}
 		for a in &small {
 			for b in &small {
-				tables.push(vec![a.clone(), b.clone()]);
+				tables.push((vec![a.clone(), b.clone()], true));
 			}
 		}
 		for a in &full {
 			for b in &small {
-				tables.push(vec![a.clone(), b.clone()]);
-				tables.push(vec![b.clone(), a.clone()]);
+				tables.push((vec![a.clone(), b.clone()], false));
+				tables.push((vec![b.clone(), a.clone()], false));
 			}
 		}
-		for t in tables {
+		for (t, deep) in tables {
 			let v = self.in_code(Self::long_code(), vec![AttributeInfo::StackMapTable { attribute_name_index: name, entries: t }]);
-			self.push("StackMapTable", v);
+			self.push_as("StackMapTable", v, deep, false);
+		}
+		// frames at the largest offset a method can have, and the largest number of frames
+		if self.variant == PoolVariant::Base {
+			use StackMapFrame as F;
+			let vt = self.vtypes();
+			let mut big = vec![insn::nop; 65534];
+			big.push(insn::r#return);
+			let far: Vec<Vec<StackMapFrame>> = vec![
+				vec![F::SameFrameExtended { offset_delta: 65534 }],
+				vec![F::ChopFrame { k: 1, offset_delta: 65534 }],
+				vec![F::SameLocals1StackItemFrameExtended { offset_delta: 65534, stack: vt[7].clone() }],
+				vec![F::AppendFrame { offset_delta: 65534, locals: vec![vt[1].clone()] }],
+				vec![F::FullFrame { offset_delta: 65534, locals: vec![vt[8].clone()], stack: vec![vt[4].clone()] }],
+				vec![F::SameFrame { offset_delta: 63 }, F::SameFrameExtended { offset_delta: 65470 }],
+				(0..65535).map(|_| F::SameFrame { offset_delta: 0 }).collect(),
+			];
+			for t in far {
+				let v = self.in_code(big.clone(), vec![AttributeInfo::StackMapTable { attribute_name_index: name, entries: t }]);
+				self.push("StackMapTable", v);
+			}
 		}
 	}
 
@@ -917,10 +1009,250 @@ impl Gen {
 	}
 }
 
+
+// ---- one instance of every attribute kind, and the families built from them ------------------
+
+/// the names of the 28 attribute kinds the crate models (everything else is `Other`)
+pub const MODELLED_NAMES: &[&str] = &[
+	"ConstantValue", "Code", "StackMapTable", "Exceptions", "InnerClasses", "EnclosingMethod", "Synthetic", "Signature",
+	"SourceFile", "SourceDebugExtension", "LineNumberTable", "LocalVariableTable", "LocalVariableTypeTable", "Deprecated",
+	"RuntimeVisibleAnnotations", "RuntimeInvisibleAnnotations", "RuntimeVisibleParameterAnnotations",
+	"RuntimeInvisibleParameterAnnotations", "AnnotationDefault", "BootstrapMethods", "MethodParameters", "Module",
+	"ModulePackages", "ModuleMainClass", "NestHost", "NestMembers", "Record", "PermittedSubclasses",
+];
+
+impl Gen {
+	/// one instance of every attribute kind (29: the 28 modelled ones and `Other`), every table of it with one
+	/// element, with the name of its kind and the place the JVMS gives it
+	fn samples(&self) -> Vec<(&'static str, Level, AttributeInfo)> {
+		use AttributeInfo as A;
+		let ix = &self.ix;
+		let n = |s: &str| ix.name(s);
+		let arr = ElementValue::Array { values: vec![ElementValue::Integer { const_value_index: ix.int }] };
+		let ann = Annotation { type_index: ix.u_ann, element_value_pairs: vec![ElementValuePairsEntry { element_name_index: ix.u_v, value: arr.clone() }] };
+		let lnt = A::LineNumberTable { attribute_name_index: n("LineNumberTable"), line_number_table: vec![LineNumberTableEntry { start_pc: 0, line_number: 7 }] };
+		vec![
+			("ConstantValue", Level::Field, A::ConstantValue { attribute_name_index: n("ConstantValue"), constantvalue_index: ix.int }),
+			("Code", Level::Method, A::Code {
+				attribute_name_index: n("Code"), max_stack: 1, max_locals: 2, code: Self::short_code(),
+				exception_table: vec![ExceptionTableEntry { start_pc: 0, end_pc: 1, handler_pc: 2, catch_type: ix.cls_t }], attributes: vec![lnt.clone()],
+			}),
+			("StackMapTable", Level::Code, A::StackMapTable {
+				attribute_name_index: n("StackMapTable"),
+				entries: vec![StackMapFrame::FullFrame { offset_delta: 1, locals: vec![VerificationTypeInfo::Integer {}], stack: vec![VerificationTypeInfo::Object { cpool_index: ix.cls_t }] }],
+			}),
+			("Exceptions", Level::Method, A::Exceptions { attribute_name_index: n("Exceptions"), exception_index_table: vec![ix.cls_t] }),
+			("InnerClasses", Level::Class, A::InnerClasses {
+				attribute_name_index: n("InnerClasses"),
+				classes: vec![InnerClassesEntry { inner_class_info_index: ix.cls_a, outer_class_info_index: ix.this_class, inner_name_index: ix.u_inner_name, inner_class_access_flags: 0x0009 }],
+			}),
+			("EnclosingMethod", Level::Class, A::EnclosingMethod { attribute_name_index: n("EnclosingMethod"), class_index: ix.cls_t, method_index: ix.nat_m }),
+			("Synthetic", Level::Class, A::Synthetic { attribute_name_index: n("Synthetic") }),
+			("Signature", Level::Class, A::Signature { attribute_name_index: n("Signature"), signature_index: ix.u_sig }),
+			("SourceFile", Level::Class, A::SourceFile { attribute_name_index: n("SourceFile"), sourcefile_index: ix.u_source }),
+			("SourceDebugExtension", Level::Class, A::SourceDebugExtension { attribute_name_index: n("SourceDebugExtension"), debug_extension: b"SMAP".to_vec() }),
+			("LineNumberTable", Level::Code, lnt),
+			("LocalVariableTable", Level::Code, A::LocalVariableTable {
+				attribute_name_index: n("LocalVariableTable"),
+				local_variable_table: vec![LocalVariableTableEntry { start_pc: 0, length: 3, name_index: ix.u_v, descriptor_index: ix.u_int_desc, index: 1 }],
+			}),
+			("LocalVariableTypeTable", Level::Code, A::LocalVariableTypeTable {
+				attribute_name_index: n("LocalVariableTypeTable"),
+				local_variable_type_table: vec![LocalVariableTypeTableEntry { start_pc: 0, length: 3, name_index: ix.u_v, signature_index: ix.u_sig, index: 1 }],
+			}),
+			("Deprecated", Level::Class, A::Deprecated { attribute_name_index: n("Deprecated") }),
+			("RuntimeVisibleAnnotations", Level::Class, A::RuntimeVisibleAnnotations { attribute_name_index: n("RuntimeVisibleAnnotations"), annotations: vec![ann.clone()] }),
+			("RuntimeInvisibleAnnotations", Level::Field, A::RuntimeInvisibleAnnotations { attribute_name_index: n("RuntimeInvisibleAnnotations"), annotations: vec![ann.clone()] }),
+			("RuntimeVisibleParameterAnnotations", Level::Method, A::RuntimeVisibleParameterAnnotations {
+				attribute_name_index: n("RuntimeVisibleParameterAnnotations"), parameter_annotations: vec![ParameterAnnotationEntry { annotations: vec![ann.clone()] }],
+			}),
+			("RuntimeInvisibleParameterAnnotations", Level::Method, A::RuntimeInvisibleParameterAnnotations {
+				attribute_name_index: n("RuntimeInvisibleParameterAnnotations"), parameter_annotations: vec![ParameterAnnotationEntry { annotations: vec![ann.clone()] }],
+			}),
+			("AnnotationDefault", Level::Method, A::AnnotationDefault {
+				attribute_name_index: n("AnnotationDefault"),
+				default_value: ElementValue::Array { values: vec![ElementValue::Annotation { annotation_value: ann.clone() }] },
+			}),
+			("BootstrapMethods", Level::Class, A::BootstrapMethods {
+				attribute_name_index: n("BootstrapMethods"), bootstrap_methods: vec![BootstrapMethodsEntry { bootstrap_method_ref: ix.mh_method, boostrap_arguments: vec![ix.string] }],
+			}),
+			("MethodParameters", Level::Method, A::MethodParameters { attribute_name_index: n("MethodParameters"), parameters: vec![MethodParametersEntry { name_index: ix.u_v, access_flags: 0x0010 }] }),
+			("Module", Level::ModuleClass, A::Module {
+				attribute_name_index: n("Module"), module_name_index: ix.module_a, module_flags: 0x0020, module_version_index: ix.u_version,
+				requires: vec![ModuleRequiresEntry { requires_index: ix.module_b, requires_flags: 0x0020, requires_version_index: 0 }],
+				exports: vec![ModuleExportsEntry { exports_index: ix.package_a, exports_flags: 0, exports_to_index: vec![ix.module_b] }],
+				opens: vec![ModuleOpensEntry { opens_index: ix.package_b, opens_flags: 0x1000, opens_to_index: vec![ix.module_b] }],
+				uses_index: vec![ix.cls_t],
+				provides: vec![ModuleProvidesEntry { provides_index: ix.cls_t, provides_with_index: vec![ix.cls_a] }],
+			}),
+			("ModulePackages", Level::ModuleClass, A::ModulePackages { attribute_name_index: n("ModulePackages"), package_index: vec![ix.package_a] }),
+			("ModuleMainClass", Level::ModuleClass, A::ModuleMainClass { attribute_name_index: n("ModuleMainClass"), main_class_index: ix.cls_t }),
+			("NestHost", Level::Class, A::NestHost { attribute_name_index: n("NestHost"), host_class_index: ix.cls_t }),
+			("NestMembers", Level::Class, A::NestMembers { attribute_name_index: n("NestMembers"), classes: vec![ix.cls_a] }),
+			("Record", Level::Class, A::Record {
+				attribute_name_index: n("Record"),
+				components: vec![RecordComponentInfo { name_index: ix.u_f, descriptor_index: ix.u_int_desc, attributes: vec![A::Signature { attribute_name_index: n("Signature"), signature_index: ix.u_sig }] }],
+			}),
+			("PermittedSubclasses", Level::Class, A::PermittedSubclasses { attribute_name_index: n("PermittedSubclasses"), classes: vec![ix.cls_b] }),
+			("Other", Level::Class, A::Other { attribute_name_index: n("x.Custom"), info: vec![0xca, 0xfe] }),
+		]
+	}
+
+	/// every attribute kind in every container: the crate recognises an attribute by its name alone, wherever it is
+	/// (the JVMS lets a reader ignore an attribute in a foreign place; it is still a well-formed class file)
+	fn attribute_placement(&mut self) {
+		for (_, _, a) in self.samples() {
+			for level in LEVELS {
+				let v = self.place(level, vec![a.clone()]);
+				self.push_optional("attribute-placement", v);
+			}
+		}
+	}
+
+	/// every ordered pair of different attribute kinds next to each other, in the container of the first
+	fn attribute_pairs_all_kinds(&mut self) {
+		let s = self.samples();
+		for (i, (_, level, a)) in s.iter().enumerate() {
+			for (j, (_, _, b)) in s.iter().enumerate() {
+				if i != j {
+					let v = self.place(*level, vec![a.clone(), b.clone()]);
+					self.push_optional("attribute-pairs-all-kinds", v);
+				}
+			}
+		}
+	}
+
+	/// the dispatch on the pool's UTF-8 name: names that nearly are the name of a modelled attribute, the name
+	/// at the first and at the last index of the pool, and the same name twice in the pool
+	fn name_dispatch(&mut self) {
+		use AttributeInfo as A;
+		let samples = self.samples();
+		// (1) near misses: an unknown attribute whose name differs from a modelled name by one character, by case,
+		//     or is a prefix of it - once with the body of an instance of that kind (a sloppy comparison reads it as
+		//     that kind), once with a one-byte body that fits no kind
+		for (kind, level, a) in &samples {
+			if *kind == "Other" {
+				continue;
+			}
+			let body = super::refenc::attribute_body(a);
+			let mut near: Vec<String> = vec![format!("{kind}x"), kind[..kind.len() - 1].to_owned(), kind.to_lowercase(), kind.to_uppercase(), format!("x{kind}"), format!("{kind}\u{1}")];
+			near.retain(|n| !ATTRIBUTE_NAMES.contains(&n.as_str()));
+			for (k, name) in near.iter().enumerate() {
+				for (b, info) in [body.clone(), vec![9u8]].into_iter().enumerate() {
+					let mut c = self.place(*level, vec![A::Other { attribute_name_index: self.next, info }]);
+					c.constant_pool.push(CpInfo::Utf8 { bytes: name.as_bytes().to_vec() });
+					if (k + b) % 2 == 1 {
+						// not always the last entry of the pool
+						c.constant_pool.push(CpInfo::Utf8 { bytes: b"pad".to_vec() });
+					}
+					self.push("attribute-name-near-miss", c);
+				}
+			}
+		}
+		// the empty name, and an unknown attribute named like an entry that is there for another purpose (index 1 in the base pool)
+		let mut c = self.in_class(vec![A::Other { attribute_name_index: self.next, info: vec![1, 2, 3] }]);
+		c.constant_pool.push(CpInfo::Utf8 { bytes: vec![] });
+		self.push("attribute-name-near-miss", c);
+		for idx in [self.ix.u_f, self.ix.u_source, self.ix.u_void_desc] {
+			let c = self.in_class(vec![A::Other { attribute_name_index: idx, info: vec![4] }]);
+			self.push("attribute-name-near-miss", c);
+		}
+		if self.variant != PoolVariant::Base {
+			return;
+		}
+		// (2) the name of every kind once as pool entry #1 and once as the last pool entry
+		for first in [true, false] {
+			for (pos, name) in ATTRIBUTE_NAMES.iter().enumerate() {
+				let kind = if *name == "x.Custom" { "Other" } else { name };
+				let rotate = if first { pos } else { (pos + 1) % ATTRIBUTE_NAMES.len() };
+				let g = self.with_pool(universe_ordered(self.variant, first, rotate));
+				let want = if first { 1 } else { g.next - 1 };
+				assert_eq!(g.ix.name(name), want, "generator: the attribute name is not where it was meant to be");
+				match g.samples().into_iter().find(|(k, _, _)| k == &kind) {
+					Some((_, level, a)) => {
+						let v = g.place(level, vec![a]);
+						self.push("attribute-name-position", v);
+					},
+					None => {
+						// the two type annotation names: not modelled, an opaque attribute with a well-formed body
+						let v = g.in_class(vec![A::Other { attribute_name_index: want, info: vec![0, 0] }]);
+						self.push("attribute-name-position", v);
+					},
+				}
+			}
+		}
+		// (3) the name twice in the pool: two attributes of the kind, each named through another entry
+		for (kind, _, _) in &samples {
+			let name = if *kind == "Other" { "x.Custom" } else { kind };
+			let mut ix2 = self.ix.clone();
+			for e in ix2.names.iter_mut() {
+				if e.0 == name {
+					e.1 = self.next;
+				}
+			}
+			let mut pool2 = self.pool.clone();
+			pool2.push(CpInfo::Utf8 { bytes: name.as_bytes().to_vec() });
+			let g2 = self.with_pool((pool2.clone(), ix2, self.next + 1));
+			let a1 = samples.iter().find(|(k, _, _)| k == kind).map(|(_, _, a)| a.clone()).unwrap();
+			let a2 = g2.samples().into_iter().find(|(k, _, _)| k == kind).map(|(_, _, a)| a).unwrap();
+			for (x, y) in [(&a1, &a2), (&a2, &a1)] {
+				// in two fields
+				let mut c = g2.host();
+				c.fields = vec![g2.field(vec![x.clone()]), FieldInfo { access_flags: 0x0002, name_index: g2.ix.u_w, descriptor_index: g2.ix.u_int_desc, attributes: vec![y.clone()] }];
+				self.push_optional("attribute-name-twice-in-pool", c);
+				// in the class and in a method
+				let mut c = g2.in_method(vec![y.clone()]);
+				c.attributes = vec![x.clone()];
+				self.push_optional("attribute-name-twice-in-pool", c);
+			}
+		}
+	}
+
+	/// every table of every attribute kind (and of the class itself) with 3, 255, 256 and 65535 elements
+	/// (as far as the width of its count allows), and the largest constant pool
+	fn table_sizes(&mut self) {
+		use super::edits::{self, Op};
+		if self.variant != PoolVariant::Base {
+			return;
+		}
+		let other = AttributeInfo::Other { attribute_name_index: self.ix.name("x.Custom"), info: vec![1] };
+		let mut host = self.host();
+		host.access_flags = 0x0421;
+		host.interfaces = vec![self.ix.cls_a];
+		host.fields = vec![self.field(vec![other.clone()])];
+		host.methods = vec![self.abstract_method(vec![other.clone()])];
+		host.attributes = vec![other];
+		let mut bases: Vec<(ClassFile, bool)> = vec![(host, true)];
+		for (_, level, a) in self.samples() {
+			bases.push((self.place(level, vec![a]), false));
+		}
+		for (mut base, is_host) in bases {
+			let tabs = edits::tables(&mut base);
+			for (t, (info, _)) in tabs.iter().enumerate() {
+				let of_host = info.what.starts_with("ClassFile.") || info.what.starts_with("FieldInfo.") || info.what.starts_with("MethodInfo.");
+				if of_host != is_host {
+					continue;
+				}
+				for size in [3usize, 255, 256, 65535] {
+					let mut v = base.clone();
+					if edits::apply(&mut v, t, Op::Resize(size)).is_some() {
+						self.push_optional("table-sizes", v);
+					}
+				}
+			}
+		}
+		// the largest constant pool: constant_pool_count = 65535
+		let mut c = self.host();
+		let have = c.constant_pool.len();
+		c.constant_pool.extend((have..65534).map(|i| CpInfo::Integer { bytes: i as u32 }));
+		self.push("table-sizes", c);
+	}
+}
+
 /// every case of one pool variant, in a fixed order
 pub fn cases(variant: PoolVariant) -> Vec<Case> {
-	let (pool, ix, _) = universe(variant);
-	let mut g = Gen { pool, ix, variant, out: Vec::new(), counter: Default::default() };
+	let (pool, ix, next) = universe(variant);
+	let mut g = Gen { pool, ix, next, variant, out: Vec::new(), counter: Default::default() };
 	if variant == PoolVariant::TwoSlotFirst {
 		// one representative sweep: the symptom is the same for every attribute (its name is looked up one entry off)
 		g.simple_attributes();
@@ -941,8 +1273,8 @@ pub struct FramePairs {
 
 impl FramePairs {
 	pub fn new(variant: PoolVariant) -> FramePairs {
-		let (pool, ix, _) = universe(variant);
-		let g = Gen { pool, ix, variant, out: Vec::new(), counter: Default::default() };
+		let (pool, ix, next) = universe(variant);
+		let g = Gen { pool, ix, next, variant, out: Vec::new(), counter: Default::default() };
 		let (_, full) = g.frames();
 		FramePairs { g, full }
 	}
@@ -953,6 +1285,6 @@ impl FramePairs {
 		let n = self.full.len();
 		let t = vec![self.full[i / n].clone(), self.full[i % n].clone()];
 		let value = self.g.in_code(Gen::long_code(), vec![AttributeInfo::StackMapTable { attribute_name_index: self.g.ix.name("StackMapTable"), entries: t }]);
-		Case { label: format!("raw/{}/StackMapTable-pair/{}", self.g.variant.name(), i), focus: "StackMapTable", pool: self.g.variant, value }
+		Case { label: format!("raw/{}/StackMapTable-pair/{}", self.g.variant.name(), i), focus: "StackMapTable", pool: self.g.variant, value, deep: false, optional: false }
 	}
 }
